@@ -209,7 +209,7 @@ def h_relay(X, proto, K, reduced=False):
 
 
 def obligations(tier):
-    kt, ku, kd = (4, 5, 8) if tier == "quick" else (5, 6, 11)
+    kt, ku, kd = (4, 4, 8) if tier == "quick" else (5, 5, 11)
     alpha = "{client data, server data, inject->server, inject->client (each with hook policy pass / length-changing edit), client close, server close, ConnectionClosed echo}"
     must = ["end", "relayed", "injected", "edited", "ended-by-close", "open-failed", "injected-after-end", "echo-close"]
     var = "x startup {already open, open ok, open fails} x ignore-mode (variants other than open-ok/flow get one step less)"
